@@ -44,6 +44,9 @@ func VerifHarness_RangeQuery() {
 	startU, lenU := verifInt("startU"), verifInt("lenU")
 	verifAssume(startU >= 0 && startU < int(sliceSize/gran))
 	verifAssume(lenU >= int(sliceSize/gran) && lenU <= int(time.Duration(maxPts-2)*step/gran))
+	// the sliced regime: a range no longer than one step is sent as ONE request [start, end] (sliceRange's first
+	// branch) - nothing is sliced there, and its evaluation grid is anchored at start, not at a slice boundary
+	verifAssume(time.Duration(lenU)*gran > step)
 	start := t0.Add(time.Duration(startU) * gran)
 	end := start.Add(time.Duration(lenU) * gran)
 
